@@ -339,7 +339,7 @@ def _run_render(pid: str, tier: str, seed: int, spec: dict, scale: float = 1.0, 
 
 PROPS["C12"] = {"theorems": ["C12_total", "C12_totalL", "C12_mirror_index", "C12_mirror_keys", "C12_mirror_union",
                              "C12_mirror_set", "C12_mirror_preds", "C12_next_level", "C12_next_level_map",
-                             "C12_message_total", "src_render", "src_pred_messages_cover", "src_pred_messages_only", "src_message_renderer_pinned"],
+                             "C12_message_total", "src_render", "src_pred_messages_cover", "src_pred_messages_only", "src_message_renderer_pinned", "src_render_step", "src_render_full", "src_render_fullL", "C12_src_total"],
                 "modules": ["KodaModel.Properties.C12", "KodaModel.Properties.C12Src"],
                 "level_note": "tied to the source: to_serializable_errs (serialization/errors.py) is translated on every "
                               "run (Generated/RenderSrc.lean: the isinstance chain over the error classes, the validator "
@@ -348,6 +348,10 @@ PROPS["C12"] = {"theorems": ["C12_total", "C12_totalL", "C12_mirror_index", "C12
                               "equal to the model's `render` for every error node, every assignment of validator classes and "
                               "every next_level, under the stated well-formedness of coercion errors (a UUID / Decimal / date "
                               "/ datetime validator's coercion error does not name list or tuple as destination); "
+                              "src_render_full: the translated function calling itself as its own default next_level (recursion "
+                              "depth as fuel; comprehensions stop at the first exception) returns or raises, from some depth on, "
+                              "exactly what the model's renderFull does, for every error tree; C12_src_total: on every tree "
+                              "built from the library's own error types and predicates it returns a rendering; "
                               "src_pred_messages_cover / _only: pred_to_err_message has an arm for exactly the predicate "
                               "classes the library defines (Generated/PredSrc.lean) and ends in TypeError.  The C12_* theorems "
                               "are about `render` / `renderFull` / `messageLines`; the message renderer of signature.py is "
